@@ -146,6 +146,8 @@ func (x *c18World) apply(op string) bool {
 				title, cl, poster, body = strings.Repeat("T", 255), x.adL, c18LongName, strings.Repeat("m", 70)
 			case "big":
 				body = strings.Repeat("B", 65000)
+			case "max": // the largest body a field can carry
+				body = strings.Repeat("M", 65535)
 			case "tabnl": // text that starts with a tab and contains a line feed
 				title, body = "\tT\nU", "\tDear all,\nthe server moves on Friday.\n"
 			case "leadnl": // text that starts with a line feed
@@ -189,6 +191,13 @@ func (x *c18World) apply(op string) bool {
 		for _, a := range cat.Arts {
 			a.LinksKnown = false
 		}
+	case "delartmissing":
+		// deleting an article of a category that does not exist (a stale client): nothing may appear or disappear
+		if x.node(path) != nil || len(path) == 0 {
+			return false
+		}
+		x.adm.Req(ref.TDelNewsArt, ref.F(ref.FNewsPath, ref.NewsPathBytes(path...)), ref.F32(ref.FNewsArtID, 1))
+		world.Quiet()
 	case "delmissing":
 		// deleting an item that does not exist (a stale client): nothing else may disappear
 		if x.node(path) != nil || len(path) == 0 {
@@ -450,7 +459,7 @@ func c18Alphabet() []string {
 		"reply:C1:1", "reply:C1:2", "reply:B1/C2:1",
 		"delart:C1:1", "delart:C1:2", "delart:C1:3", "delart:B1/C2:1",
 		"delitem:C1", "delitem:B1", "delitem:B1/C2", "delitem:B2",
-		"delmissing:BX/C1", "delmissing:B1/C1", "delmissing:BX/BY/C1", "delmissing:B1/C2", "delmissing:B2/C3",
+		"delartmissing:Genral", "delartmissing:B1/Genral", "post:C1:max", "delmissing:BX/C1", "delmissing:B1/C1", "delmissing:BX/BY/C1", "delmissing:B1/C2", "delmissing:B2/C3",
 		"reload", "restore",
 	}
 }
